@@ -2,6 +2,26 @@
 over the shards; budgets are case counts, never time."""
 
 PROPS = {
+    "C20": {
+        "pkg": "c20", "needs_gw": True, "level": "exploration",
+        "technique": "property-based testing (rapid) + exhaustive single-mutation sweep + native coverage-guided fuzzing: catalogue requests with fields replaced by boundary / malformed / oversized / type-confused values; oracle = no panic (attributed by first own frame), bounded time and allocation, well-formed answer, gateway keeps serving",
+        "level_text": ("Generated-input search: every catalogue operation, correctly signed (a tenth with a bad signature), with 1-3 mutations drawn from: any "
+                       "query parameter or header (70 % from the operation's own) set to numeric boundary / hostile / oversized values, structural body "
+                       "mutations (leaf text replaced, element dropped, repeated up to 20000x, nested up to 20000 deep, replaced by one of 80 hostile "
+                       "documents), path tails, aws-chunked bodies with hostile framing. Plus a sweep that enumerates operation x own parameter x all "
+                       "26 numeric boundary values and operation x hostile document. After each request: no panic anywhere in the in-process chain / "
+                       "the real process is alive, the answer arrives within 30 s and parses as HTTP with an S3 <Error> document (or a plain 4xx of the "
+                       "HTTP layer), < 256 MiB allocated, and ListBuckets by root still answers 200."),
+        "level_note": "bounded time is a 30 s hang detector, not a latency bound; a 5xx with a well-formed error document is accepted (the statement asks for well-formedness, not for a specific status). Exploration only.",
+        "rule": ("case = (config, op, target, caller, mutations, bad-auth, chunk hack, engine); every case is non-trivial (at least one field is hostile); distinct by the full tuple."),
+        "assumptions": ["in-process engine replicates runGateway wiring; TestC20P observes death of the shipped binary directly", "event sender, audit logger and metrics are off"],
+        "jobs": [
+            {"run": "TestC20A", "quick": 24000, "thorough": 800000, "shards_quick": 12, "shards_thorough": 16},
+            {"run": "TestC20P", "quick": 6000, "thorough": 100000, "shards_quick": 4, "shards_thorough": 16},
+            {"run": "TestC20Sweep", "quick": 1, "thorough": 1, "shards_quick": 12, "shards_thorough": 16},
+        ],
+        "fuzz": [{"target": "FuzzC20", "seconds": 900}],
+    },
     "C15": {
         "pkg": "c15", "needs_gw": True, "level": "exploration",
         "technique": "property-based testing (rapid) over the endpoint catalogue x caller x target on a read-only gateway; oracle = storage snapshot equality, differential against a read-write twin on the same storage",
